@@ -1,1 +1,141 @@
-def main : IO Unit := IO.println "driver C13: not built yet"
+import VncModel.Basic.Proto
+import VncModel.Threads.Model
+/-! Trace-inclusion driver for the threads model (C13).
+
+stdin: the event trace of one run of harness/c13.c restricted to the library threads, one event per
+line (`A lock L`, `I0 unlock U0`, `O1 wait u1`, `A create I0`, `A call bell 0`, `I0 gone 0`, ...),
+terminated by `end`.  The trace is replayed through `succ` as a non-deterministic automaton: the
+set of model states compatible with the prefix read so far is maintained; an event of thread t is
+matched after any number of silent (`tau`) steps of t, and followed by any number of them (under the
+deterministic scheduler only the running thread executes code between two of its events).
+stdout: `accept <events> states=<k> flags=<...>` or `reject <line number> <event> | <why>`. -/
+open VncModel VncModel.Threads VncModel.Proto
+
+/-- extensional equality of model states (clients below `n` only; the others are never written) -/
+def stateEq (a b : State) : Bool :=
+  a.n == b.n && a.ownL == b.ownL && a.ownC == b.ownC && a.apc == b.apc && a.lpc == b.lpc &&
+  a.aapi == b.aapi && a.alk == b.alk && a.lisDown == b.lisDown && a.ljoined == b.ljoined &&
+  a.uaf == b.uaf && a.dfree == b.dfree && a.badUnlock == b.badUnlock && a.badJoin == b.badJoin &&
+  a.conflict == b.conflict && a.badRef == b.badRef && a.badCreate == b.badCreate && a.ga == b.ga && a.gl == b.gl && (List.range a.n).all fun c => decide (a.cl c = b.cl c)
+
+def parseTid (x : String) : Option Tid :=
+  if x = "A" then some .app else if x = "L" then some .lis
+  else if x.startsWith "I" then (x.drop 1).toString.toNat?.map .inp
+  else if x.startsWith "O" then (x.drop 1).toString.toNat?.map .out
+  else none
+
+def parseMtx (x : String) : Option (MCls × Nat) :=
+  if x = "L" then some (.L, 0) else if x = "C" then some (.C, 0)
+  else
+    let k := (x.drop 1).toString.toNat?
+    match x.take 1 |>.toString, k with
+    | "U", some c => some (.U, c) | "S", some c => some (.S, c)
+    | "O", some c => some (.O, c) | "R", some c => some (.R, c)
+    | _, _ => none
+
+def parseCond (x : String) : Option (CCls × Nat) :=
+  match x.take 1 |>.toString, (x.drop 1).toString.toNat? with
+  | "u", some c => some (.u, c) | "d", some c => some (.d, c)
+  | _, _ => none
+
+def parseApi (x : String) : Option Api :=
+  match x with
+  | "runloop" => some .runloop | "newclient" => some .newclient | "mark" => some .mark
+  | "copy" => some .copy | "bell" => some .bell | "cut" => some .cut | "cututf8" => some .cututf8
+  | "iter" => some .iter | "newfb" => some .newfb | "shutdown" => some .shutdown
+  | "cleanup" => some .cleanup | _ => none
+
+def parseEvent (toks : List String) : Option (Tid × Lbl) :=
+  match toks with
+  | t :: op :: rest =>
+    match parseTid t with
+    | none => none
+    | some tid =>
+      let l : Option Lbl :=
+        match op, rest with
+        | "lock", [m] => (parseMtx m).map fun (a, c) => .lock a c
+        | "unlock", [m] => (parseMtx m).map fun (a, c) => .unlock a c
+        | "wait", [v] => (parseCond v).map fun (a, c) => .wait a c
+        | "wake", [v] => (parseCond v).map fun (a, c) => .wake a c
+        | "signal", [v] => (parseCond v).map fun (a, c) => .signal a c
+        | "create", [x] => (parseTid x).map .create
+        | "join", [x] => (parseTid x).map .join
+        | "exit", [] => some .exit
+        | "call", a :: _ => (parseApi a).map .call
+        | "ret", a :: _ => (parseApi a).map .ret
+        | "alloc", [c] => c.toNat?.map .alloc
+        | "newcl", [c] => c.toNat?.map .newcl
+        | "gone", [c] => c.toNat?.map .gone
+        | "pipew", [c] => c.toNat?.map .pipew
+        | "sock", [c] => c.toNat?.map .sock
+        | "st", [c, v] =>
+          match c.toNat?, v with
+          | some c, "hs" => some (.st c .hs) | some c, "normal" => some (.st c .normal)
+          | some c, "shutdown" => some (.st c .shutdown) | _, _ => none
+        | _, _ => none
+      l.map fun l => (tid, l)
+  | _ => none
+
+/-- the model keeps clients as a function that is updated point-wise: re-tabulate it so that a lookup
+does not walk through the whole history of updates (same function on every index below `n`; the
+indices from `n` on are never written before `alloc` moves `n`) -/
+def normalize (s : State) : State :=
+  let arr : Array Client := Array.ofFn (n := s.n + 1) (fun i => s.cl i.val)
+  { s with cl := fun j => if h : j < arr.size then arr[j] else {} }
+
+/-- add the states of `xs` not yet in `acc` -/
+def addNew (acc : List State) (xs : List State) : List State × List State :=
+  xs.foldl (fun (p : List State × List State) s =>
+    if p.1.any (stateEq s) then p else (s :: p.1, s :: p.2)) (acc, [])
+
+/-- closure under silent steps of thread t -/
+partial def tauClose (t : Tid) (seen todo : List State) : List State :=
+  match todo with
+  | [] => seen
+  | s :: rest =>
+    let nexts := (succ s t).filterMap fun (l, s') => if l = .tau then some (normalize s') else none
+    let (seen', fresh) := addNew seen nexts
+    tauClose t seen' (fresh ++ rest)
+
+def closeSet (t : Tid) (xs : List State) : List State :=
+  let (uniq, _) := addNew [] xs
+  tauClose t uniq uniq
+
+def advance (xs : List State) (t : Tid) (l : Lbl) : List State :=
+  let pre := closeSet t xs
+  let hit := pre.flatMap fun s => (succ s t).filterMap fun (l', s') => if l' = l then some (normalize s') else none
+  closeSet t hit
+
+def flagsOf (s : State) : String :=
+  (if s.uaf then "uaf," else "") ++ (if s.dfree then "dfree," else "") ++
+  (if s.badUnlock then "badUnlock," else "") ++ (if s.badJoin then "badJoin," else "") ++
+  (if s.conflict then "conflict," else "") ++ (if s.badRef then "badRef," else "") ++ (if s.badCreate then "badCreate," else "")
+
+partial def loopC13 (h : IO.FS.Stream) (out : IO.FS.Stream) (xs : List State) (n : Nat) : IO Unit := do
+  let line ← h.getLine
+  let toks := tokens line
+  if line.isEmpty || toks = ["end"] then
+    -- a trace is explained if at least one compatible model state carries no error flag
+    let clean := xs.filter fun s => flagsOf s = ""
+    let fl := if clean.isEmpty then (match xs with | s :: _ => flagsOf s | [] => "none") else "none"
+    out.putStrLn s!"accept {n} states={xs.length} flags={fl}"
+    out.flush
+    return ()
+  match toks with
+  | [] => loopC13 h out xs n
+  | _ =>
+    match parseEvent toks with
+    | none =>
+      out.putStrLn s!"reject {n + 1} {" ".intercalate toks} | unparsable event"
+      out.flush
+    | some (t, l) =>
+      let ys := advance xs t l
+      if ys.isEmpty then
+        out.putStrLn s!"reject {n + 1} {" ".intercalate toks} | no model state allows it (states before: {xs.length})"
+        out.flush
+      else loopC13 h out ys (n + 1)
+
+def main : IO Unit := do
+  let stdin ← IO.getStdin
+  let stdout ← IO.getStdout
+  loopC13 stdin stdout [State.init] 0
